@@ -113,6 +113,7 @@ namespace sim
     EV_ITER_DEREF,
     EV_ITER_INC,
     EV_GEN_CALL,
+    EV_SWAP,      // user-provided ADL swap of the element type
     EV_NKINDS
   };
 
@@ -121,7 +122,7 @@ namespace sim
   {
     static const char *const names[] = { "alloc", "ctor_default", "ctor_value", "ctor_copy",
                                          "ctor_move", "assign_copy", "assign_move",
-                                         "iter_deref", "iter_inc", "gen_call" };
+                                         "iter_deref", "iter_inc", "gen_call", "swap" };
     return (0 <= k && k < EV_NKINDS) ? names[k] : "?";
   }
 
